@@ -26,13 +26,16 @@ class AnalysisError(Exception):
 
 
 class Module:
-    def __init__(self, rel, path):
+    def __init__(self, rel, path, src=None):
         self.rel = rel
         self.path = path
-        try:
-            self.src = path.read_text(encoding='utf-8')
-        except OSError as e:
-            raise AnalysisError(f'cannot read {rel}: {e}')
+        if src is not None:
+            self.src = src
+        else:
+            try:
+                self.src = path.read_text(encoding='utf-8')
+            except OSError as e:
+                raise AnalysisError(f'cannot read {rel}: {e}')
         try:
             self.tree = ast.parse(self.src, filename=str(path))
         except SyntaxError as e:
@@ -144,9 +147,12 @@ PACKAGES = ('cssutils', 'encutils')
 
 
 class Repo:
-    def __init__(self, root=REPO):
+    def __init__(self, root=REPO, overrides=None):
+        """``overrides`` maps a relative path to replacement source text (used by
+        the self-test to analyse an in-memory variant of the tree)."""
         self.root = Path(root)
         self.modules = {}
+        overrides = overrides or {}
         for pkg in PACKAGES:
             base = self.root / pkg
             if not base.is_dir():
@@ -155,7 +161,7 @@ class Repo:
                 rel = p.relative_to(self.root).as_posix()
                 if '/tests/' in rel:
                     continue
-                self.modules[rel] = Module(rel, p)
+                self.modules[rel] = Module(rel, p, overrides.get(rel))
         c = self.root / 'conftest.py'
         if c.exists():
             self.modules['conftest.py'] = Module('conftest.py', c)
